@@ -24,6 +24,9 @@ Leaves ==
     T("BoundaryType", "int", <<>>, <<"NegativeInfinity", "5", "in", "ex">>),
     T("LiteralType", "", <<>>, <<"i:1">>), T("LiteralType", "", <<>>, <<"s:a">>), T("LiteralType", "", <<>>, <<"i:1", "s:a">>),
     T("LiteralType", "", <<>>, <<"s:a", "i:1">>), T("LiteralType", "", <<>>, <<"b:true">>), T("LiteralType", "", <<>>, <<"s:a", "s:a">>),
+    \* values that Python counts as false, and None
+    T("LiteralType", "", <<>>, <<"i:0">>), T("LiteralType", "", <<>>, <<"b:false">>), T("LiteralType", "", <<>>, <<"s:">>), T("LiteralType", "", <<>>, <<"i:0", "i:1">>),
+    T("LiteralType", "", <<>>, <<"s:", "s:a">>), T("LiteralType", "", <<>>, <<"n:">>), T("LiteralType", "", <<>>, <<"s:a", "n:">>),
     T("TypeVarType", "T", <<>>, <<>>) }
 SmallLeaves == { T("NamedType", "A", <<>>, <<>>), T("NamedType", "B", <<>>, <<>>), T("LiteralType", "", <<>>, <<"i:1", "s:a">>),
                  T("EnumType", "", <<>>, <<"x", "y">>), T("BoundaryType", "int", <<>>, <<"0", "Infinity", "in", "ex">>) }
